@@ -809,6 +809,17 @@ func (sh *SyncHandler) validateShardPrefix(pfx string) (err error) {
 	for sb := range missingc {
 		missing = append(missing, sb)
 	}
+	// ListMissingDestinationBlobs stops reading as soon as the source is exhausted or either side
+	// sent its zero-value sentinel, but the enumerators may have more to send than their channels
+	// hold. Drain both, so that they can finish and report on their error channels.
+	go func() {
+		for range src {
+		}
+	}()
+	go func() {
+		for range dst {
+		}
+	}()
 
 	if err := srcErr.Get(); err != nil {
 		return err
